@@ -83,7 +83,7 @@ def table():
         own = r.get("checks", {}).get(m["property"], {})
         how = ""
         if own.get("replay"):
-            how = "%s %s" % (own["replay"].get("source", ""), own["replay"].get("stream") or ",".join(own["replay"].get("broken_ties") or []))
+            how = "%s %s" % (own["replay"].get("source", ""), own["replay"].get("stream") or ",".join((t.get("tie","") if isinstance(t, dict) else str(t)) for t in (own["replay"].get("broken_ties") or [])))
             if any(l.endswith("no-failing-input-found") for l in own.get("lines", [])):
                 how += " (no-failing-input-found)"
         rows.append("| %s | %s | %s | %s | %s |" % (name, m["summary"].replace("|", "/")[:140], "yes" if r.get("own_check_detects") else "NO",
@@ -98,8 +98,12 @@ if __name__ == "__main__":
     if cmd == "run":
         run_one(sys.argv[2], allc)
     elif cmd == "runall":
+        # optional substring filters: tools/seeded.py runall r3 r4   (only ids containing one of them)
+        pats = [a for a in sys.argv[2:] if not a.startswith("--")]
         for name in sorted(os.listdir(os.path.join(VERIF, "seeded"))):
             d = os.path.join(VERIF, "seeded", name)
+            if pats and not any(p in name for p in pats):
+                continue
             if os.path.exists(os.path.join(d, "meta.json")):
                 run_one(d, allc)
     elif cmd == "table":
